@@ -203,6 +203,10 @@ def run_misc(res, dim, system, tier):
         return
     other_sys = L.CART[dim] if system != L.CART[dim] else L.SYSTEMS[dim][-1]
     rows_o = [tuple(float(x) for x in S.stored(v, other_sys)) for v in vs if S.stored(v, other_sys) is not None and S.stored(v, system) is not None]
+    # a row of negative zeros (x = -0.0 / phi = -0.0, z = -0.0 / eta = -0.0): value-equal rewrites (x + 0, abs, round) would change its bits
+    NZ = {"x": -0.0, "y": 1.25, "rho": 1.25, "phi": -0.0, "z": -0.0, "theta": 1.5, "eta": -0.0, "t": 2.5, "tau": 1.5}
+    rows = rows + [tuple(NZ[n] for n in L.field_names(system))]
+    rows_o = rows_o + [tuple(NZ[n] for n in L.field_names(other_sys))]
     for flavor in ("generic", "momentum"):
         for backend, cfg, variant in (("OBJ", None, "plain"), ("NP", "1d", "plain"), ("NP", "1d", "extra"), ("NP", "1d", "view"), ("NP", "2d", "plain"), ("NP", "swapped", "plain"), ("NP", "strided", "plain"), ("NP", "F2d", "plain"),
                                       ("AKA", "jagged", "plain"), ("AKA", "jagged", "extra"), ("AKA", "flat", "annotated"), ("AKA", "jagged", "annotated"), ("AKR", None, "annotated"), ("AKA", "optrec", "plain"), ("AKA", "nested3", "plain"), ("AKR", None, "extra")):
@@ -248,6 +252,11 @@ def run_misc(res, dim, system, tier):
                 mon("numpy.asarray", lambda: np.asarray(v))
                 mon("pickle", lambda: pickle.loads(pickle.dumps(v)))
                 mon("copy", lambda: copy.deepcopy(v))
+                mon("repr", lambda: repr(v))
+                mon("str", lambda: str(v))
+            if backend in ("AKA", "AKR"):
+                mon("repr", lambda: repr(v))
+                mon("str", lambda: str(v))
             if backend == "AKA":
                 for axis in (None, 0, 1, -1):
                     mon(f"ak.sum(axis={axis})", lambda axis=axis: ak.sum(v, axis=axis))
